@@ -8,8 +8,8 @@ package types
 
 import (
 	"fmt"
-	"os"
 	"math/big"
+	"os"
 	"testing"
 	"time"
 
@@ -52,6 +52,9 @@ func (e *c01qEnv) vote(key int, idx int32, typ tmproto.SignedMsgType, what int) 
 	v := &Vote{Type: typ, Height: 3, Round: 1, Timestamp: e.ts, ValidatorAddress: e.keys[key].PubKey().Address(), ValidatorIndex: idx}
 	if what == 1 || what == 2 {
 		v.BlockID = e.blocks[what-1]
+	}
+	if what == 4 {
+		v.BlockID = BlockID{Hash: e.blocks[0].Hash, PartSetHeader: PartSetHeader{Total: 2, Hash: crypto.Sha256([]byte("other-parts"))}}
 	}
 	sig, err := e.keys[key].Sign(VoteSignBytes("verif-c01q", v.ToProto()))
 	if err != nil {
@@ -139,7 +142,7 @@ func (e *c01qEnv) run(c c01qCase) (key, what string, reached bool) {
 
 type c01qOp struct {
 	V    int `json:"v"` // validator (by key); -1: peer claim
-	What int `json:"x"` // 1 A, 2 B, 3 nil
+	What int `json:"x"` // 1 A, 2 B, 3 nil, 4 A' (the hash of A with another part-set header: a different value)
 }
 
 type c01qSeqCase struct {
@@ -161,7 +164,7 @@ func (e *c01qEnv) runSeq(c c01qSeqCase) (key, what string, nontrivial bool) {
 	}
 	typ := tmproto.SignedMsgType(c.Type)
 	set := NewVoteSet("verif-c01q", 3, 1, typ, vs)
-	voted := [4]map[int]bool{nil, {}, {}, {}} // value -> validators (by key) whose vote for it was delivered
+	voted := [5]map[int]bool{nil, {}, {}, {}, {}} // value -> validators (by key) whose vote for it was delivered
 	anyVoted := map[int]bool{}
 	power := func(m map[int]bool) int64 {
 		var s int64
@@ -193,6 +196,16 @@ func (e *c01qEnv) runSeq(c c01qSeqCase) (key, what string, nontrivial bool) {
 					x = i + 1
 				}
 			}
+			if x == 3 && !bid.IsZero() {
+				x = 4
+			}
+			// the commit made from a precommit set that has a +2/3 value must itself verify for that value (the next height's
+			// proposers put it into their blocks as LastCommit)
+			if typ == tmproto.PrecommitType && !bid.IsZero() {
+				if err, pan := c01qSafe(func() error { return vs.VerifyCommit("verif-c01q", bid, 3, set.MakeCommit()) }); err != nil {
+					return "types/vote_set.go:MakeCommit:commit-of-a-two-thirds-precommit-set-does-not-verify", fmt.Sprintf("after step %d of %v: %v (panic=%v)", step, c.Ops, err, pan), nontrivial
+				}
+			}
 			if 3*power(voted[x]) <= 2*total {
 				return "types/vote_set.go:addVerifiedVote:majority-reported-without-two-thirds-of-distinct-voters",
 					fmt.Sprintf("after step %d of %v: +2/3 reported for value %d, the distinct validators whose vote for it was delivered hold %d of %d", step, c.Ops, x, power(voted[x]), total), nontrivial
@@ -212,6 +225,15 @@ func (e *c01qEnv) runSeq(c c01qSeqCase) (key, what string, nontrivial bool) {
 		}
 	}
 	return "", "", nontrivial
+}
+
+func c01qSafe(f func() error) (err error, panicked bool) {
+	defer func() {
+		if x := recover(); x != nil {
+			err, panicked = fmt.Errorf("panic: %v", x), true
+		}
+	}()
+	return f(), false
 }
 
 func c01qPerms(n int, f func([]int)) {
@@ -240,6 +262,9 @@ func TestVerifC01Quorum(t *testing.T) {
 	pid, part := "C01", "quorum"
 	if os.Getenv("VERIF_C01Q_AS") == "C02" {
 		pid, part = "C02", "voteset"
+	}
+	if os.Getenv("VERIF_C01Q_AS") == "C03" {
+		pid, part = "C03", "lastcommit" // termination of the next height needs a LastCommit every proposer's block verifies with
 	}
 	r := vr.Start(pid, part, 60*time.Second, 10*time.Minute)
 	defer r.Finish()
@@ -354,6 +379,7 @@ func TestVerifC01Quorum(t *testing.T) {
 			}
 		}
 		alpha = append(alpha, c01qOp{V: -1, What: 1}, c01qOp{V: -1, What: 2})
+		alpha = append(alpha, c01qOp{V: n - 1, What: 4}) // one validator votes for the hash of A with another part-set header
 		seq := make([]c01qOp, 0, maxLen)
 		stop := false
 		var rec func()
